@@ -368,6 +368,9 @@ class SourceScope(Scope):
                 if not name.startswith('_'):
                     flow.add_name(ImportedName(name, loc, declared_at, mname, name, True))
 
+        if self._star_imports:
+            # name tables computed before the star names were added are stale
+            self._loop_memo = [{}]
         self._star_imports[:] = []
 
 
